@@ -126,3 +126,5 @@ func ghost_holdsCopy(dst, src reflect.Value) bool {
 	}
 	return true
 }
+
+func ghost_hasInit(t reflect.Type) bool { return hasInitDefaults(t) }
